@@ -65,6 +65,46 @@ def mc_and_replay(wd, vhbin, rawpath, maxin, extra, maker=None, cfg="MC_Stateful
     return res, exp, mism, done, nodef
 
 
+def run_lextrace(wd, tf, timeout=3000):
+    res = vlib.run_tlc(wd, "Trace_StatefulLexer", modules=["StatefulLexer", "Regex", "Position"], workers=1, dfs=True, timeout=timeout,
+                       extra_files=[tf], consts={"TraceFile": '"%s"' % os.path.basename(tf)})
+    rej = None
+    for f in vlib.parse_lines(res.lines, "REJECTED"):
+        rej = int(f[0])
+    if rej is None and not res.ok:
+        if res.violation is None:
+            raise Infra("Trace_StatefulLexer failed to run: %s" % res.error)
+        rej = res.states
+    return res, rej
+
+
+def validate_lextrace(wd, tf, v, pid, max_viol=3):
+    lines = open(tf).read().splitlines()
+    total = sum(1 for x in lines if '"ev":"reset"' in x)
+    found = 0
+    while lines and found < max_viol:
+        cur = os.path.join(wd, "lexcur.ndjson")
+        open(cur, "w").write("\n".join(lines) + "\n")
+        res, rej = run_lextrace(wd, cur)
+        v.add_tlc(res)
+        if rej is None:
+            break
+        idx = min(rej, len(lines)) - 1
+        starts = [i for i in range(len(lines)) if '"ev":"reset"' in lines[i]]
+        s0 = max(i for i in starts if i <= idx)
+        nxt = [i for i in starts if i > s0]
+        e0 = nxt[0] if nxt else len(lines)
+        head = json.loads(lines[s0])
+        bad = json.loads(lines[idx])
+        for k in ("chars", "def"):
+            bad.pop(k, None)
+        v.violation("example lexer %s on input %r: call %d is not a step of StatefulLexer: %s" % (head.get("lexer"), head.get("input"), idx - s0, json.dumps(bad)[:400]),
+                    {"property": pid, "kind": "lextrace", "lexer": head.get("lexer"), "input": head.get("input"), "rejected_event": bad, "event_index": idx - s0})
+        found += 1
+        lines = lines[e0:]
+    return total
+
+
 BAD_C07 = ("PANIC", "HANG", "TOOMANY", "XEOFMOVED", "+0 ")
 
 
@@ -177,6 +217,26 @@ def run(pid, tier, args):
                 elif p[0] == "DONE":
                     v.validated(int(p[1]))
             v.notes["generated_lexers"] = "%d definitions compiled and run with %d extra calls" % (len(gcases), extra)
+        if pid == "C03":
+            # B2: realistic stateful lexers (patterns beyond Regex.tla): the regexp outcomes are an oracle table recorded from the
+            # standard library; rule choice, stack moves, groups, elision, positions and errors are decided by StatefulLexer!Call
+            tf = os.path.join(wd, "lextrace.ndjson")
+            vlib.vh(vhbin, ["lextrace-record", str(vlib.seed()), "6" if tier == "quick" else "80"], outfile=tf)
+            ntr = validate_lextrace(wd, tf, v, pid)
+            v.validated(ntr)
+            if not v.violations:
+                lines = open(tf).read().splitlines()
+                k = max(i for i in range(len(lines)) if '"res":"tok"' in lines[i])
+                e = json.loads(lines[k])
+                e["to"] += 1
+                lines[k] = json.dumps(e, separators=(",", ":"))
+                cf = os.path.join(wd, "lexcorrupt.ndjson")
+                open(cf, "w").write("\n".join(lines) + "\n")
+                res_, rej = run_lextrace(wd, cf)
+                if rej is None:
+                    raise Infra("binding self-test failed: corrupted lexer trace accepted")
+                v.notes["binding_selftest"] = "token end of event %d corrupted: rejected at line %s" % (k + 1, rej)
+            v.notes["realistic_lexers"] = "%d traces of 4 example lexers (string interpolation, heredoc with back-reference, INI with Return, template with nested includes) incl. seeded mutations" % ntr
         if pid == "C03" and tier == "thorough":
             # NewSimple path for one-state maps
             res2, exp2, mism2, done2, nodef = mc_and_replay(wd, vhbin, rawpath, 3, 0, maker="simple")
